@@ -6,6 +6,8 @@
 //! after more frames were appended beyond the cut.
 //! and — deterministically, from inside the rip_verif points of an append (message, run_ended, run_spawned, cursor, side
 //! effects, checkpoint) — while further frames are being appended.
+//! Span phase: ONE compile is held at the rip_verif point between reading the head and reading the mr sidecar while
+//! complete appends happen; its outcome must be what the property demands of some state of the thread in between.
 //! Window-boundary sweeps: threads 1.2x..4x of each tail-scan window (256 KiB .. 8 MiB), EVERY message as anchor.
 //! Finally real runs: messages posted through the real router with a scripted provider; the frames each run logged
 //! (selection_decided, context_compiled + bundle artifact) are read back and judged the same way.
@@ -190,6 +192,7 @@ struct RunRec {
     snap_text: String,
 }
 
+#[derive(Clone)]
 struct Hist {
     id: String,
     messages: Vec<String>,
@@ -631,6 +634,11 @@ fn enc_out(a: &Abs, out: &Out) -> Vec<u64> {
 /// What the property text demands, computed from the replayed truth log and the harness's own record of
 /// what it wrote for each run.  Returns None when the anchor is not a message of the thread.
 fn spec_bundle(a: &Abs, runs: &[RunRec], anchor: &str, limit: usize, max_refs: usize, frame_at_or_before_cut: bool) -> Option<Value> {
+    spec_bundle_ck(a, &a.truth, runs, anchor, limit, max_refs, frame_at_or_before_cut)
+}
+/// the same with the checkpoint frames taken from `ck` (a longer state of the same thread): what a compile gives whose
+/// checkpoint lookups ran after more frames had been appended (only used to NAME the S9 shape, never to accept it)
+fn spec_bundle_ck(a: &Abs, ck: &[Event], runs: &[RunRec], anchor: &str, limit: usize, max_refs: usize, frame_at_or_before_cut: bool) -> Option<Value> {
     let t = &a.truth;
     let is_msg = |e: &Event| matches!(e.kind, EventKind::ContinuityMessageAppended { .. });
     let apos = t.iter().position(|e| is_msg(e) && e.id == anchor)?;
@@ -640,7 +648,7 @@ fn spec_bundle(a: &Abs, runs: &[RunRec], anchor: &str, limit: usize, max_refs: u
     };
     // visible cumulative checkpoints: the frame itself and its to_seq at or before the cut; per to_seq the newest frame
     let mut by_to: BTreeMap<u64, (String, String)> = BTreeMap::new();
-    for e in t.iter().filter(|e| e.seq <= cut || !frame_at_or_before_cut) {
+    for e in ck.iter().filter(|e| e.seq <= cut || !frame_at_or_before_cut) {
         if let EventKind::ContinuityCompactionCheckpointCreated { summary_kind, summary_artifact_id, to_seq, checkpoint_id, .. } = &e.kind {
             if summary_kind == CUMULATIVE && *to_seq <= cut {
                 by_to.insert(*to_seq, (summary_artifact_id.clone(), checkpoint_id.clone()));
@@ -688,7 +696,7 @@ fn spec_bundle(a: &Abs, runs: &[RunRec], anchor: &str, limit: usize, max_refs: u
     // the decision's cause; with no supported checkpoint in sight, the latest visible checkpoint of ANY kind (largest
     // to_seq, on a tie the later frame) decides it, and the reset names the kind that was ignored
     let mut latest_any: Option<(u64, String)> = None;
-    for e in t.iter().filter(|e| e.seq <= cut || !frame_at_or_before_cut) {
+    for e in ck.iter().filter(|e| e.seq <= cut || !frame_at_or_before_cut) {
         if let EventKind::ContinuityCompactionCheckpointCreated { summary_kind, to_seq, .. } = &e.kind {
             if *to_seq <= cut && latest_any.as_ref().map(|(b, _)| *to_seq >= *b).unwrap_or(true) {
                 latest_any = Some((*to_seq, summary_kind.clone()));
@@ -1018,6 +1026,7 @@ struct CaseOut {
     op_errors: u64,
     id: String,
     race: Option<RaceOut>,
+    span: Vec<SpanObs>,
 }
 
 fn resolve_anchor(a: &Anchor, h: &Hist, truth: &[Event]) -> String {
@@ -1093,6 +1102,13 @@ fn run_case(case: &Case, limit: usize, max_refs: usize) -> CaseOut {
         let mut v = compile_at(&tmp, &id, &c.anchor_id, 1, secs);
         later_baselines.push(v.pop().unwrap());
     }
+    // appends that complete while ONE compile is between reading the head and reading the mr sidecar (on copies)
+    let span = if case.race.is_empty() {
+        vec![]
+    } else {
+        let anchors: Vec<String> = compiled.iter().map(|c| c.anchor_id.clone()).collect();
+        span_phase(&root, &tmp, &h, &case.race, &anchors)
+    };
     // appends racing with compilation (on the live store, after everything else was observed on copies)
     let race = if case.race.is_empty() {
         None
@@ -1101,7 +1117,55 @@ fn run_case(case: &Case, limit: usize, max_refs: usize) -> CaseOut {
         Some(race_phase(&mut o, &root, &mut h, &case.race, &anchors))
     };
     drop(o);
-    CaseOut { abs, abs_later, runs, runs_later, compiled, later_baselines, op_errors: h.op_errors, id, race }
+    CaseOut { abs, abs_later, runs, runs_later, compiled, later_baselines, op_errors: h.op_errors, id, race, span }
+}
+
+// ---------------------------------------------------------------- appends spanned by one compile
+struct SpanObs {
+    anchor_idx: usize,
+    /// the reader that was held: compile.tail.head_read / compile.window.head_read ("" = the point was not reached)
+    point: &'static str,
+    out: Out,
+    /// frames of the thread when the compile started; the thread and the runs afterwards
+    len_before: usize,
+    truth_after: Vec<Event>,
+    runs_after: Vec<RunRec>,
+}
+/// For every anchor, on a fresh copy of the store: the real compile is held at the rip_verif point between reading the
+/// head (full sidecar) and reading the messages+runs sidecar, ALL of `ops` are appended (complete appends, every sidecar
+/// written), then the compile goes on: head of the thread before, mr sidecar / checkpoint caches of the thread after.
+fn span_phase(root: &Path, tmp: &Path, h: &Hist, ops: &[Op], anchors: &[String]) -> Vec<SpanObs> {
+    let ops: Vec<Op> = ops.iter().filter(|o| matches!(o, Op::Msg { .. } | Op::Run { .. } | Op::RunEnded { .. } | Op::SideFx | Op::Cursor | Op::Checkpoint { .. } | Op::Selection | Op::Compiled)).cloned().collect();
+    let mut v = vec![];
+    if ops.is_empty() {
+        return v;
+    }
+    for (ai, a) in anchors.iter().enumerate() {
+        copy_store(root, tmp, true);
+        let o = open(tmp);
+        let len_before = replay_truth(tmp, &h.id).len();
+        let state = Arc::new(std::sync::Mutex::new((o.clone(), h.clone(), None::<&'static str>)));
+        {
+            let (state2, tmp2, ops2) = (state.clone(), tmp.to_path_buf(), ops.clone());
+            rip_kernel::verif::set_hook(Some(Arc::new(move |name: &'static str| {
+                if name != "compile.tail.head_read" && name != "compile.window.head_read" {
+                    return;
+                }
+                let mut g = state2.lock().unwrap();
+                if g.2.is_some() {
+                    return; // only the first time this compile reads a head
+                }
+                g.2 = Some(name);
+                let (ref mut o2, ref mut h2, _) = *g;
+                apply_ops(o2, &tmp2, h2, &ops2);
+            })));
+        }
+        let out = std::panic::catch_unwind(std::panic::AssertUnwindSafe(|| compile_on(&o, tmp, &h.id, a))).unwrap_or(Out::Panic);
+        rip_kernel::verif::set_hook(None);
+        let g = state.lock().unwrap();
+        v.push(SpanObs { anchor_idx: ai, point: g.2.unwrap_or(""), out, len_before, truth_after: replay_truth(tmp, &h.id), runs_after: g.1.runs.clone() });
+    }
+    v
 }
 
 // ---------------------------------------------------------------- appends racing with compilation
@@ -1259,6 +1323,26 @@ fn judge(case: &Case, out: &CaseOut, limit: usize, max_refs: usize, checks: &mut
                 }
             }
         }
+    }
+    // (e) a compile that spans complete appends (head read before them, mr sidecar and checkpoint caches after them) gives
+    // what the property demands of SOME state of the thread between its start and its end
+    for ob in &out.span {
+        *checks += 1;
+        if ob.point.is_empty() {
+            continue;
+        }
+        let got = view_of(&ob.out);
+        let c = &out.compiled[ob.anchor_idx];
+        let states: Vec<Abs> = (ob.len_before..=ob.truth_after.len()).map(|n| abstract_truth(ob.truth_after[..n].to_vec(), &ob.runs_after)).collect();
+        if states.iter().any(|a| got == spec_bundle(a, &ob.runs_after, &c.anchor_id, limit, max_refs, true)) {
+            continue;
+        }
+        // S9 seen through concurrency: the cut of an earlier state, checkpoint frames appended after it
+        let last = states.last().unwrap();
+        let s9 = (selected_checkpoint_after_cut(last, &ob.out) || ignored_checkpoint_after_cut(last, &ob.out)) && states.iter().any(|a| got == spec_bundle_ck(a, &last.truth, &ob.runs_after, &c.anchor_id, limit, max_refs, false));
+        let class = if s9 { "checkpoint_after_cut_selected".to_string() } else { format!("compile_spanning_appends_changes_bundle:{}", ob.point) };
+        let show = |x: &Option<Value>| x.as_ref().map(brief_view).unwrap_or("error".into());
+        v.push((ob.anchor_idx, class, format!("anchor {:?}: a compile held at {} while {:?} were appended => {}   the thread before => {}   after => {}", c.anchor, ob.point, case.race, show(&got), show(&spec_bundle(&states[0], &ob.runs_after, &c.anchor_id, limit, max_refs, true)), show(&spec_bundle(last, &ob.runs_after, &c.anchor_id, limit, max_refs, true)))));
     }
     v
 }
@@ -1551,6 +1635,10 @@ fn main() {
         let nre = out.abs.truth.iter().filter(|e| matches!(e.kind, EventKind::ContinuityRunEnded { .. })).count();
         res.bump(&format!("checkpoints={}", match nck { 0 => "0", 1 => "1", 2..=4 => "2-4", _ => "5+" }));
         res.bump(&format!("messages={}", match nmsg { 0..=3 => "0-3", 4..=15 => "4-15", 16 => "16", 17..=20 => "17-20", _ => "21+" }));
+        res.bump_by("span_compiles", out.span.iter().filter(|o| !o.point.is_empty()).count() as u64);
+        if let Some(r) = &out.race {
+            res.bump_by("race_compiles", r.obs.len() as u64);
+        }
         if case.sweep != 0 {
             res.bump("window_sweep_threads");
             res.bump_by("window_sweep_anchors", case.anchors.len() as u64);
